@@ -1,5 +1,8 @@
 #!/bin/sh
 # usage: soak.sh <seed0> <nproc> <count-per-proc> [profile]
+# always rebuild the harness against /repo's current tree (a stale binary from a seeded tree once misled a soak)
+export GOFLAGS=-mod=mod GOPROXY=off GOSUMDB=off GOTOOLCHAIN=local
+(cd /verif/harness && ./mkmod.sh >/dev/null && go test -c -vet=off -o /verif/build/harness.test . 2>&1 | grep -v '^WARNING')
 cd /verif/build
 S=$1; N=$2; C=$3; P=$4
 for i in $(seq 0 $((N-1))); do
